@@ -117,6 +117,13 @@ def _body(case, ctx):
     real_t = gen.np_dtype(case["dtype"])
     eps = float(np.finfo(real_t).eps)
     tiny = float(np.finfo(real_t).tiny)
+    for gname, gopts in case.get("pre_generate", []):
+        # other kernels of the same operator family requested earlier in this (fresh) process
+        from .. import kernels as _kern
+
+        needs = "ssprk3" if "ssprk3" in gname else None
+        with ctx.repo_call(f"generating {gname}({gopts})"):
+            _kern.build(gname, dict(gopts), needs, real_t, case["threads"], shape=shape)
     with ctx.repo_call(f"generating {name}"):
         ks = _get(name, real_t, case["threads"], shape)
     vec = name.endswith("vector") or name.startswith("stretch")
@@ -308,9 +315,46 @@ def _exact_body(case, ctx):
     ctx.note(nontrivial=True, labels=[name])
 
 
+# ------------------------------------------------------------------------------------------------
+# the same oracle with the kernels generated in a FRESH process after a drawn list of related generator calls
+# ------------------------------------------------------------------------------------------------
+
+_FAMILY = {"adv": "advection", "dif": "diffusion", "str": "stretching"}
+
+
+def _fresh_strategy(tier, name):
+    from .. import kernels as _kern
+
+    dim = "2d" if name.endswith("2d") else "3d"
+    fam = [(g, o) for g, o, _n in _kern.generator_options() if _FAMILY[name[:3]] in g and g.endswith(dim)]
+
+    @st.composite
+    def case(draw):
+        c = draw(_strategy(tier, name))
+        c["poison"] = True
+        pre = draw(st.lists(st.sampled_from(fam), min_size=1, max_size=3))
+        c["pre_generate"] = [[g, dict(o)] for g, o in pre]
+        return c
+
+    return case()
+
+
+def _fresh_body(case, ctx):
+    from ..freshproc import run_in_fresh_process
+
+    res = run_in_fresh_process("sophtverif.props.c20", "euler_and_rk3_compiled", [case])
+    if res.get("error"):
+        raise RuntimeError("fresh-process driver failed: " + res["error"])
+    if res["violation"] is not None:
+        raise Violation(f"in a fresh process, after generating {case['pre_generate']} first: {res['violation']['message']}")
+    ctx.note(nontrivial=True, labels=[case["kernel"], f"pre_generated_{len(case['pre_generate'])}"])
+
+
 PARTS = [
     Part(name="euler_and_rk3_compiled", strategy=_strategy, body=_body, variants=_variants,
          examples={"quick": 640, "thorough": 16000}, shards={"quick": 8, "thorough": 16}),
     Part(name="rk3_exact", strategy=_exact_strategy, body=_exact_body, variants=_exact_variants,
          examples={"quick": 60, "thorough": 1200}, shards={"quick": 6, "thorough": 12}),
+    Part(name="fresh_process_generation_order", strategy=_fresh_strategy, body=_fresh_body, variants=_variants,
+         examples={"quick": 32, "thorough": 640}, shards={"quick": 8, "thorough": 16}, min_examples_per_variant=3),
 ]
